@@ -826,3 +826,30 @@ Qed.
 Theorem rewrite_request_rejects_other_forms v req :
   list_eqb (firstn 7 (r_req req)) S_HTTP = false -> rewrite_request v req = None.
 Proof. intros H. unfold rewrite_request. rewrite H. reflexivity. Qed.
+
+(* ---- the close decision looks at the Connection header's value without regard to letter case ---- *)
+Definition close_flag (hdrs : list (list Z * list Z)) : bool :=
+  match lookup_header hdrs S_CONNECTION with
+  | Some v => list_eqb (lower_case v) S_CLOSE
+  | None => false
+  end.
+
+Theorem http_close_flag_is_the_headers handlers stall buf len out close req :
+  find_request_len buf (Z.of_nat (length buf)) = Ok len -> parse_request buf len = Ok req ->
+  http_decide handlers stall buf = HRespond len out close -> close = close_flag (r_headers req).
+Proof.
+  intros F P. unfold http_decide, close_flag. rewrite F.
+  destruct (len <? 0); [discriminate|]. rewrite P.
+  destruct (lookup_path handlers (r_path req)) as [r|].
+  - destruct (http_respond r (r_headers req)); [|discriminate]. intros H. inversion H. reflexivity.
+  - destruct (existsb _ stall); [discriminate|]. intros H. inversion H. reflexivity.
+Qed.
+
+Theorem close_is_recognised_in_any_letter_case hdrs v :
+  lookup_header hdrs S_CONNECTION = Some v -> lower_case v = S_CLOSE -> close_flag hdrs = true.
+Proof. intros L E. unfold close_flag. rewrite L, E. apply list_eqb_refl. Qed.
+
+Example close_spellings :   (* "Close", "CLOSE", "cLoSe" *)
+  lower_case [67; 108; 111; 115; 101] = S_CLOSE /\ lower_case [67; 76; 79; 83; 69] = S_CLOSE /\
+  lower_case [99; 76; 111; 83; 101] = S_CLOSE.
+Proof. repeat split; reflexivity. Qed.
